@@ -46,27 +46,66 @@ NEEDS = {
  "C20B": ("src/ros2/bw.rs singleton branch: distance_to instead of saturating_sub", "singleton subchain plus a polled interferer whose step adds an offset with F* < t_a"),
 }
 
+NEEDS2 = {
+ "C02A": ("src/demand/mod.rs step_offsets: take_while(non-zero) instead of filter(non-zero)", "a task modelled by an ArrivalCurvePrefix (its steps_iter starts with 0): its offsets vanish from every search space"),
+ "C02B": ("src/edf/limited_preemptive.rs: blocking bound taken from the latest-deadline blocker (max_by_key deadline) instead of the longest segment", "three tasks, two potential blockers, the one with the later deadline has the shorter segment"),
+ "C03A": ("src/arrival/aggregated.rs SumOf::steps_iter: merges the second summand with itself", "a sum_of arrival bound whose first summand alone steps at the worst-case offset (> 0, i.e. with jitter)"),
+ "C03B": ("src/demand/mod.rs step_offsets: take_while instead of filter (same slip as round-2 C02-A), observed under FIFO", "an ArrivalCurvePrefix used directly: search space empty, Ok(0)"),
+ "C04A": ("src/ros2/ecrts19.rs rta_polling_point_callback: offsets enumerated from the interfering demand instead of the own demand", "a later own offset dominates and does not coincide with an interferer step (0.4 % of three-callback workloads)"),
+ "C04B": ("src/ros2/ecrts19.rs rta_timer: else arm of the interference interval loses its epsilon", "full-bandwidth reservation (budget = period), offset 0, zero blocking, no own burst"),
+ "C05A": ("src/ros2/rr.rs polling_point_bound: number_arrivals(R - epsilon)", "rr analysis, top-priority known polled callback with WCET exactly 1, all others polled with known lower priority"),
+ "C05B": ("src/ros2/bw.rs: F* = S* - 1 + omega instead of service_time(supply(S*) - 1 + omega)", "non-dedicated supply and a callback whose execution spans a budget boundary"),
+ "C07A": ("src/ros2/rr.rs polling_point_bound: number_arrivals(R - epsilon) (same slip as round-2 C05-A), observed against the equations", "assumed bound exactly on a step of the arrival curve and an interferer limited by the polling-point cap"),
+ "C07B": ("src/ros2/rr.rs is_higher_callback_priority_than: a <= b", "two polled callbacks with the SAME known priority value"),
+ "C08A": ("src/fixed_point.rs max_response_time: an error that follows an Ok value is dropped", "one error in a non-first position"),
+ "C08B": ("src/fixed_point.rs brute_force_search_with_offset (debug only): limit exclusive", "a fixed point exactly equal to the divergence limit: panic with debug assertions, Ok in release"),
+ "C09A": ("src/supply/mod.rs default service_time: running 'missing' counter double-counts earlier supply (undershoots)", "user-defined supply relying on the default, demand needing more than one replenishment"),
+ "C09B": ("src/supply/constrained.rs Constrained::new: deadline clamped with max(period) instead of an assertion", "any Constrained::new with deadline < period silently becomes the periodic reservation"),
+ "C10A": ("src/arrival/aggregated.rs SumOf::clone_with_jitter: first summand cloned twice", "sum_of followed by clone_with_jitter with the second operand denser than the first"),
+ "C10B": ("src/arrival/curve.rs FromIterator for Curve: stray + epsilon makes the vector strictly increasing", "a curve collected from a vector with equal neighbouring entries (bursts, plateaus)"),
+ "C11A": ("src/arrival/curve.rs lookup_arrivals: binary_search instead of the linear scan", "a repeated value in the delta-min vector queried at exactly that value"),
+ "C11B": ("src/arrival/curve.rs ExtrapolatingCurve::steps_iter degenerate branch: (1..) instead of (0..)", "an ExtrapolatingCurve over a single-entry delta-min vector, used without jitter"),
+ "C12A": ("src/arrival/curve.rs from_trace: window.pop_back() instead of pop_front()", "a trace longer than prefix_jobs + 1 whose tightest cluster is not among the first events"),
+ "C12B": ("src/arrival/curve.rs lookup_arrivals: binary search (same slip as round-2 C11-A), observed on derived curves and delta_min_iter", "recurring simultaneous arrivals and a query exactly at a repeated distance"),
+ "C13A": ("src/arrival/curve.rs: two cooperating edits — cache extended to delta instead of delta + 1, and rposition instead of position in jobs_within_largest_known_distance", "bursty prefix; steps_iter advanced k times on a clone, THEN number_arrivals at exactly the plateau value; each edit alone is harmless"),
+ "C13B": ("src/arrival/curve.rs lookup_arrivals: hand-written binary search with early exit", "repeated non-zero delta-min value; the answer varies with the cache length, i.e. with the query history"),
+ "C14A": ("src/wcet/curve.rs Curve::extrapolate: if instead of while", "an ExtrapolatingCurve::cost_of_jobs query that jumps two or more job counts past the cached length; the same query asked twice gives two answers"),
+ "C14B": ("src/wcet/curve.rs Curve::least_wcet: loop bound (len - 1).min(n)", "the strictly cheapest job at the last prefix position and n >= prefix length"),
+ "C16A": ("src/demand/{aggregate,slice}.rs least_wcet_in_interval: Service::none() answers filtered out", "a component with a zero-cost job in the interval next to a component with positive least WCET"),
+ "C16B": ("src/demand/{aggregate,slice}.rs least_wcet_in_interval: first item of the merged job_cost_iter", "a non-scalar component whose first job is not its cheapest"),
+ "C19A": ("src/edf/fully_nonpreemptive.rs: blocking filter 'releases a job at all' always true (>= none)", "a never-arriving interfering task with a later deadline and the largest WCET"),
+ "C19B": ("src/ros2/ecrts19.rs bound_response_time: zero-length-step filter dropped (one hunk of fix 1f59b81 reverted)", "demand built on an ArrivalCurvePrefix: debug panic, release Ok(0) while FIFO gives the right value"),
+ "C20A": ("src/fixed_point.rs brute_force_search_with_offset: limit exclusive (same slip as round-2 C08-B)", "limit equal to a fixed point: debug build panics, release returns Ok"),
+ "C20B": ("src/wcet/curve.rs least_wcet: len().max(n) instead of min", "curve cost model and more jobs in the window than the curve has entries: index out of bounds in both profiles"),
+}
+
+def rounds():
+    for key, val in sorted(NEEDS.items()):
+        yield key, val, f"/tmp/wt/out-{key[:3]}", [f"/tmp/seedres/{key}.recheck.txt", f"/tmp/seedres/{key}.quick.txt"], f"/tmp/seedres/{key}.quick.txt", f"{key[:3]}-{key[3]}", 1
+    for key, val in sorted(NEEDS2.items()):
+        name = f"{key[:3]}-{'C' if key[3] == 'A' else 'D'}"
+        yield key, val, f"/tmp/wt/out2-{key[:3]}", [f"/tmp/seedres/R2{key}.recheck.txt", f"/tmp/seedres/R2{key}.quick.txt"], f"/tmp/seedres/R2{key}.quick.txt", name, 2
+
 def main():
     root = "/verif/seeded"
     os.makedirs(root, exist_ok=True)
     index = []
-    for key, (change, needs) in sorted(NEEDS.items()):
+    for key, (change, needs), out, cands, basefile, name, rnd in rounds():
         pid, v = key[:3], key[3]
-        out = f"/tmp/wt/out-{pid}"
         res = None
         # the newest confirmation run wins
-        for cand in [f"/tmp/seedres/{key}.recheck.txt", f"/tmp/seedres/{key}.quick.txt"]:
+        for cand in cands:
             if os.path.exists(cand):
                 res = cand
                 break
-        dstdir = f"{root}/{pid}-{v}"
+        dstdir = f"{root}/{name}"
         if not (os.path.exists(f"{out}/mutant{v}.diff") and res):
             # keep what was collected earlier if the scratch inputs are gone
             if os.path.exists(f"{dstdir}/meta.json"):
                 index.append(json.load(open(f"{dstdir}/meta.json")))
             continue
         txt = open(res).read()
-        base = open(f"/tmp/seedres/{key}.quick.txt").read() if os.path.exists(f"/tmp/seedres/{key}.quick.txt") else txt
+        base = open(basefile).read() if os.path.exists(basefile) else txt
         def after(label, t):
             m = re.search(re.escape(label) + r"\n(test result: [^\n]*)", t)
             return m.group(1) if m else None
@@ -79,7 +118,7 @@ def main():
                     caught.append({"check": m.group(1), "violation_lines": int(m.group(3)), "keys": m.group(4).split()})
                 elif m.group(2) == "2":
                     mach.append(m.group(1))
-        th = f"/tmp/seedres/{key}.thorough.txt"
+        th = basefile.replace(".quick.txt", ".thorough.txt")
         if os.path.exists(th):
             for line in open(th).read().splitlines():
                 m = re.match(r"(C\d\d) exit=1 violations=(\d+) keys: (.*)", line)
@@ -91,11 +130,12 @@ def main():
         if os.path.exists(f"{out}/notes{v}.md"):
             shutil.copy(f"{out}/notes{v}.md", f"{dstdir}/notes.md")
         meta = {
-            "name": f"{pid}-{v}",
+            "name": name,
+            "round": rnd,
             "breaks_property": pid,
             "change": change,
             "needs_to_manifest": needs,
-            "origin": "fresh sub-agent given only the property text and its own scratch worktree of /repo",
+            "origin": "fresh sub-agent given only the property text and its own scratch worktree of /repo" + (" (second round: additionally given the list of first-round changes, to avoid repeats)" if rnd == 2 else ""),
             "confirmed_by_me": {
                 "how": "scratch worktree of /repo HEAD (fix commits included) outside /repo and /verif: demo as tests/seeded_demo.rs on the clean tree, then with patch.diff applied; the repository's own suite with patch.diff applied (cargo test --offline)",
                 "demo_on_clean_tree": after("demo on clean tree:", base),
@@ -106,7 +146,7 @@ def main():
             "caught_by_quick": caught,
             "caught_only_by_thorough": thorough_only,
             "machinery_errors": mach,
-            "apply_with": f"git -C /repo apply /verif/seeded/{pid}-{v}/patch.diff   (undo: git -C /repo checkout -- .)",
+            "apply_with": f"git -C /repo apply /verif/seeded/{name}/patch.diff   (undo: git -C /repo checkout -- .)",
         }
         json.dump(meta, open(f"{dstdir}/meta.json", "w"), indent=1)
         index.append(meta)
